@@ -37,6 +37,11 @@ theorem source_hasAllPermissions_is_model (o : Opts) :
 /-- Every interface the database API opens (`NewInterface(nil)`) is neither local nor internal. -/
 theorem api_is_unprivileged : ∀ p ∈ PB.Gen.DbPerm.apiInterfaces, p = (false, false) := by decide
 
+/-- Every function of package api that constructs a `DatabaseAPI` (regenerated list over all files of the package; the
+    extractor refuses a constructor the harness has no driver for) gives it an interface that is neither local nor
+    internal — the in-process constructor and the websocket endpoint alike. -/
+theorem api_constructors_unprivileged : ∀ c ∈ PB.Gen.DbPerm.apiConstructors, c.2 = (false, false) := by decide
+
 /-- More privileges never see less. -/
 theorem permitted_monotone (m : Meta) (l i l' i' : Bool) (hl : l = true → l' = true) (hi : i = true → i' = true)
     (h : m.permitted l i = true) : m.permitted l' i' = true := by
